@@ -1155,7 +1155,10 @@ def disk_io_counters(perdisk=False):
                     continue
                 with open_text(os.path.join(root, 'stat')) as f:
                     fields = f.read().strip().split()
-                name = os.path.basename(root)
+                # The kernel names the directory of e.g. "cciss/c0d0"
+                # "cciss!c0d0": report the device under its own name, as
+                # /proc/diskstats does (see also is_storage_device()).
+                name = os.path.basename(root).replace('!', '/')
                 # fmt: off
                 (reads, reads_merged, rbytes, rtime, writes, writes_merged,
                     wbytes, wtime, _, busy_time) = map(int, fields[:10])
